@@ -213,7 +213,14 @@ def do_op(ch, f, fwd, frames):
         ch.write(unhx(f[1]), _ignore_blacklist=(f[2] == "1"))
         return "ok"
     if k == "send":
-        ch.send(unhx(f[1]), read_back=(f[2] == "1"), timeout=secs(f[3]), _ignore_blacklist=(f[4] == "1"))
+        payload = unhx(f[1])
+        if len(payload) % 2 == 0:
+            # every other payload is handed over as `str` when it is text (send() encodes it as UTF-8)
+            try:
+                payload = payload.decode("utf-8")
+            except UnicodeDecodeError:
+                pass
+        ch.send(payload, read_back=(f[2] == "1"), timeout=secs(f[3]), _ignore_blacklist=(f[4] == "1"))
         return "ok"
     if k == "sl":
         ch.sendline(unhx(f[1]), read_back=(f[2] == "1"), timeout=secs(f[3]))
